@@ -95,11 +95,13 @@ Print Assumptions c18_empty_description_roundtrip_refuted.
 
 (* ---- the checker run on the observations ----
    no clause <=> some parse was observed, all parse results are equal, everything
-   re-read after writing is among them, and a well-formed file was accepted *)
+   re-read after writing is among them, a well-formed file was accepted (with a
+   roster id), and an accepted well-formed file was written back and re-read *)
 Theorem c18_checker_sound_complete : forall w ps rs,
   check_obs w ps rs = [] <->
   ps <> [] /\ all_equal ps = true /\
   forallb (fun r => existsb (gres_eqb r) ps) rs = true /\
-  (w = true -> forallb is_ok ps = true).
+  (w = true -> forallb is_ok ps = true) /\
+  (w = true -> existsb has_ids ps = true -> nonempty rs = true).
 Proof. exact check_obs_nil. Qed.
 Print Assumptions c18_checker_sound_complete.
